@@ -114,7 +114,7 @@ def run_case(case):
     if arz and case.get("nice_dt", True):
         jit = 2.2e-11 * float(np.max(np.abs(np.diff(ref)))) / dt + 5e-3 * sc
     elif arz:
-        jit = 1e-4 * sc        # measured <= 2e-5 over 3.6e4 cases (sub-step interpolation of the fine grid)
+        jit = 1e-7 * sc        # off the knife-edge the placement is exact: measured <= 3e-10 of the peak over 2e4 cases (after de2ce59)
     else:
         jit = 0.0
     # (1) exactly inversely proportional to the viewing distance
@@ -151,7 +151,10 @@ def run_case(case):
             continue
         d5 = float(np.max(np.abs(moved[lo:hi] - ref[lo - m:hi - m])))
         v.check(bool(np.all(np.isfinite(moved))), "field is finite everywhere, one value per sample", shape=list(moved.shape), nonfinite=int(np.sum(~np.isfinite(moved))), shower_time=where)
-        v.close("moves by whole samples when the shower time moves by whole samples", d5 / sc, 1e-6 + jit / sc + cond * slope * 4, m=m, model=case["model"], shower_time=where)
+        # observable of a mechanism (see fx_arz_placement_truncation): does "10 ns after the start of the window" lie between the two shower times?
+        crosses = bool(((ts[0] - t0) + 10e-9 >= 0) != ((ts[0] - (t0 + m * dt)) + 10e-9 >= 0))
+        v.close("moves by whole samples when the shower time moves by whole samples", d5 / sc, 1e-6 + jit / sc + cond * slope * 4, m=m, model=case["model"], shower_time=where,
+                crosses_10ns_after_window_start=crosses)
     # (4b) a pulse that is well contained in the window (edges below 1e-3 of the peak) and is moved by 1.5 ... 4 windows leaves
     # at most its far tail behind: nothing may re-enter from the periodic images of the models' FFT grids
     edge = max(float(np.max(np.abs(ref[:max(N // 10, 1)]))), float(np.max(np.abs(ref[-max(N // 10, 1):]))))
@@ -226,3 +229,7 @@ def kf_arz_low_energy_hadronic(case, viol):
 
 def fx_avz_t0_before_grid(case, viol):
     return case.get("model") == "AVZ" and viol["clause"].startswith("moves by whole samples") and viol["detail"].get("shower_time") == "to a shower time outside the grid"
+
+
+def fx_arz_placement_truncation(case, viol):
+    return case.get("model") == "ARZ" and viol["clause"].startswith("moves by whole samples") and viol["detail"].get("crosses_10ns_after_window_start") is True
